@@ -119,6 +119,26 @@ func buyDirectHook(req *types.MsgBuyDirect) func(s *zzinv.Step) {
 		zz.Assert(zz.QLe(zz.QInt(0), da.Tradable), "C03 BuyDirect never reduces a non-signer's tradable credits")
 		zz.Assert(zz.QEq(da.Escrowed, zz.QNeg(filled)), "C03 BuyDirect reduces a seller's escrow by exactly the quantities bought from their orders")
 		zz.Assert(zz.QLe(zz.BankBal0(a, s.Sk.Denom), zz.BankBal1(a, s.Sk.Denom)), "C03 BuyDirect never reduces a non-signer's coins")
+		// C07: a successful purchase reduces each named order by exactly the quantities bought
+		// from it (the same order may be named more than once) and removes it when nothing is
+		// left, and the buyer receives exactly the quantities bought of each batch
+		if s.Err == nil {
+			oid := zz.NondetU64("sk.order")
+			var o0, o1 marketapi.SellOrder
+			e0 := zz.OrmRow0(zzinv.TSellOrder, &o0, oid)
+			e1 := zz.OrmRow1(zzinv.TSellOrder, &o1, oid)
+			bought, got := zz.QInt(0), zz.QInt(0)
+			for _, o := range req.Orders {
+				bought = zz.QAdd(bought, zz.QIf(o.SellOrderId == oid, zz.QParse(o.Quantity), zz.QInt(0)))
+				var so marketapi.SellOrder
+				zz.OrmRow0(zzinv.TSellOrder, &so, o.SellOrderId)
+				got = zz.QAdd(got, zz.QIf(so.BatchKey == b, zz.QParse(o.Quantity), zz.QInt(0)))
+			}
+			left := zz.QSub(zz.QParse(o0.Quantity), bought)
+			zz.Assert(zz.Implies(e0, zz.And(e1 == zz.QLt(zz.QInt(0), left), zz.Implies(e1, zz.QEq(zz.QParse(o1.Quantity), left)))), "C07 BuyDirect reduces each order by exactly the quantities bought from it and removes it when filled")
+			db := zzinv.DeltaAccount(s.Signer, b)
+			zz.Assert(zz.QEq(zz.QAdd(db.Tradable, db.Retired), got), "C07 the buyer receives exactly the quantities bought of each batch")
+		}
 		// C18: whatever the accepted fee parameters, a purchase never aborts because one of
 		// the computed transfers (payment, fee, burn) truncates to a zero coin, which the
 		// bank module rejects
